@@ -285,3 +285,174 @@ def encode_records(schema: Schema, mi: MI, tree, packed: bool = True) -> List[Re
 
 def encode_tree(schema: Schema, mi: MI, tree) -> bytes:
     return b"".join(r.raw for r in encode_records(schema, mi, tree))
+
+
+# --------------------------------------------------------------------------- legal re-encoder
+
+ALL_OPS = ("perm", "toggle", "split", "pad_tag", "pad_len", "pad_val", "dup", "unknown")
+
+
+def _elements_of_packed(t: str, body: bytes) -> List[Tuple[int, Any]]:
+    wt = wire_type_of(t)
+    out = []
+    i = 0
+    while i < len(body):
+        if wt == VARINT:
+            v, i = dec_varint(body, i)
+            out.append((VARINT, v))
+        elif wt == I32:
+            out.append((I32, body[i : i + 4]))
+            i += 4
+        else:
+            out.append((I64, body[i : i + 8]))
+            i += 8
+    return out
+
+
+def _other_value(rng, fi: FI, rec: Record):
+    """A different well-formed payload for the same field/wire type (an overridden earlier occurrence)."""
+    if rec.wt == VARINT:
+        if fi.type == "bool":
+            return 1 - (1 if rec.payload else 0)
+        if fi.type in ("int32", "enum", "sint32", "uint32"):
+            return rng.choice([0, 1, 5, 300, 2**31 - 1]) & MASK64
+        return rng.choice([0, 1, 77, 2**40 + 3])
+    if rec.wt in (I32, I64):
+        n = 4 if rec.wt == I32 else 8
+        return bytes(rng.randrange(1, 127) for _ in range(n - 1)) + b"\x00"
+    if fi.type == "string":
+        return rng.choice([b"", b"earlier", "é".encode()])
+    return rng.choice([b"", b"\x01\x02"])
+
+
+def reencode(schema: Schema, mi: MI, data: bytes, ops, rng, depth: int = 0, stats: Optional[dict] = None) -> bytes:
+    """A different but legal encoding of the same message (spec-level, independent of betterproto).
+
+    ops subset of ALL_OPS; rng is a random.Random seeded from the (Hypothesis-drawn) case.
+    `stats` counts which transformations actually changed something."""
+    if stats is None:
+        stats = {}
+
+    def hit(k):
+        stats[k] = stats.get(k, 0) + 1
+
+    recs = parse_records(data)
+    out: List[Record] = []
+    i = 0
+    # 1. element-level rewrites (toggle packing / split chunks / recurse into sub-messages)
+    while i < len(recs):
+        r = recs[i]
+        fi = mi.by_number(r.number)
+        if fi is None:
+            out.append(r)
+            i += 1
+            continue
+        if fi.card == "repeated" and wire_type_of(fi.type) != LEN:
+            if r.wt == LEN:  # packed
+                els = _elements_of_packed(fi.type, r.payload)
+                if "toggle" in ops and els and rng.random() < 0.7:
+                    out.extend(make_record(fi.number, wt, p) for wt, p in els)
+                    hit("toggle")
+                elif "split" in ops and len(els) >= 2 and rng.random() < 0.8:
+                    k = rng.randrange(1, len(els))
+                    for chunk in (els[:k], els[k:]):
+                        out.append(make_record(fi.number, LEN, b"".join(payload_bytes(wt, p) for wt, p in chunk)))
+                    hit("split")
+                elif "pad_val" in ops and els and els[0][0] == VARINT and rng.random() < 0.7:
+                    body = b""
+                    for _, p in els:
+                        vl = varint_len(p)
+                        body += enc_varint(p, rng.randrange(vl + 1, 11) if vl < 10 and rng.random() < 0.6 else 0)
+                    if body != r.payload:
+                        hit("pad_packed_elem")
+                    out.append(make_record(fi.number, LEN, body))
+                else:
+                    out.append(r)
+            else:
+                out.append(r)
+            i += 1
+            continue
+        sub = None
+        if fi.type == "message" and fi.wkt is None and r.wt == LEN and fi.card != "map":
+            sub = schema.msg(fi.msg)
+        if sub is not None and depth < 2 and r.payload and rng.random() < 0.6:
+            body = reencode(schema, sub, r.payload, ops, rng, depth + 1, stats)
+            out.append(make_record(fi.number, LEN, body))
+        else:
+            out.append(r)
+        i += 1
+    recs = out
+    # 2. overridden earlier occurrences of singular scalars / other oneof members
+    if "dup" in ops:
+        out = []
+        seen_groups = set()
+        for r in recs:
+            fi = mi.by_number(r.number)
+            if fi is not None and fi.card in ("single", "optional") and fi.type != "message" and rng.random() < 0.6:
+                if fi.oneof and rng.random() < 0.5:
+                    others = [g for g in mi.oneofs[fi.oneof] if g.number != fi.number and g.type != "message"]
+                    if others and fi.oneof not in seen_groups:
+                        g = rng.choice(others)
+                        wt = wire_type_of(g.type)
+                        fake = Record(g.number, wt, 0 if wt == VARINT else (b"\x00" * (4 if wt == I32 else 8) if wt != LEN else b""), b"")
+                        out.append(make_record(g.number, wt, _other_value(rng, g, fake)))
+                        hit("dup_oneof")
+                else:
+                    out.append(make_record(fi.number, r.wt, _other_value(rng, fi, r)))
+                    hit("dup_scalar")
+            if fi is not None and fi.oneof:
+                seen_groups.add(fi.oneof)
+            out.append(r)
+        recs = out
+    # 3. unknown fields
+    if "unknown" in ops:
+        used = {f.number for f in mi.fields}
+        for _ in range(rng.randrange(1, 4)):
+            n = rng.choice([x for x in (9999, 19, 1000, 2**28 + 1, 2**29 - 2, 77) if x not in used])
+            wt = rng.choice([VARINT, I64, LEN, I32])
+            p = {VARINT: rng.choice([0, 1, 2**63]), I64: b"\x01" * 8, I32: b"\x02" * 4, LEN: rng.choice([b"", b"xyz", b"\x08\x01"])}[wt]
+            recs.insert(rng.randrange(0, len(recs) + 1), make_record(n, wt, p))
+            hit("unknown")
+    # 4. permutation preserving the relative order within one field number and within one oneof group
+    if "perm" in ops and len(recs) > 1:
+        def cls_of(r):
+            fi = mi.by_number(r.number)
+            if fi is not None and fi.oneof:
+                return ("g", fi.oneof)
+            return ("n", r.number)
+
+        keys = [cls_of(r) for r in recs]
+        order = list(range(len(recs)))
+        rng.shuffle(order)
+        # place classes by shuffled slots, keeping each class's internal order
+        queues = {}
+        for r, k in zip(recs, keys):
+            queues.setdefault(k, []).append(r)
+        new = []
+        for idx in order:
+            k = keys[idx]
+            new.append(queues[k].pop(0))
+        if [r.raw for r in new] != [r.raw for r in recs]:
+            hit("perm")
+        recs = new
+    # 5. non-minimal varints (tags, lengths, values)
+    final = []
+    for r in recs:
+        tp = lp = vp = 0
+        tlen = varint_len((r.number << 3) | r.wt)
+        if "pad_tag" in ops and rng.random() < 0.4:
+            tp = rng.randrange(tlen + 1, min(5, tlen + 3) + 1) if tlen < 5 else 0
+        if r.wt == LEN and "pad_len" in ops and rng.random() < 0.4:
+            ll = varint_len(len(r.payload))
+            lp = rng.randrange(ll + 1, min(5, ll + 3) + 1) if ll < 5 else 0
+        if r.wt == VARINT and "pad_val" in ops and rng.random() < 0.5:
+            vl = varint_len(r.payload)
+            vp = rng.randrange(vl + 1, 11) if vl < 10 else 0
+        if tp or lp or vp:
+            nr = make_record(r.number, r.wt, r.payload, tag_pad=tp, len_pad=lp, val_pad=vp)
+            if nr.raw != r.raw:
+                hit("pad_tag" if tp else ("pad_len" if lp else "pad_val"))
+            final.append(nr)
+        else:
+            final.append(r)
+    return b"".join(r.raw for r in final)
